@@ -6,14 +6,14 @@ set_option linter.unusedVariables false
 namespace TSSVerif.Gen.Wire
 open TSSVerif.Model
 
-/-! `newRBCEncoding` (threshold/threshold.go:939) -/
+/-! `newRBCEncoding` (threshold/threshold.go:941) -/
 def ackEncPanics (sender : B16) (msgRound : B8) : Bool := ((msgRound >>> 7) != 0#8)
 def ackEncByte0 (sender : B16) (msgRound : B8) : B8 := msgRound
 def ackEncByte1 (sender : B16) (msgRound : B8) : B8 := (BitVec.setWidth 8 (sender >>> 8))
 def ackEncByte2 (sender : B16) (msgRound : B8) : B8 := (BitVec.setWidth 8 sender)
 def ackEncShape : Bool := true  -- header bytes, then the digest appended verbatim
 
-/-! `rbcEncoding.Ack` (threshold/threshold.go:953): guards in source order, then the field assignments -/
+/-! `rbcEncoding.Ack` (threshold/threshold.go:955): guards in source order, then the field assignments -/
 def ackDecGuards : List AckGuard := [
   { needs := 0, cond := fun len r0 r1 r2 => decide (len = 0), out := .malformed },
   { needs := 1, cond := fun len r0 r1 r2 => ((r0 >>> 7) != 0#8), out := .payload },
